@@ -419,20 +419,38 @@ def run(prog, ctx):
     if ps is None:
         raise AnalysisError("C15.D6: get_middle_weighted is no longer loop-free (path summaries unavailable)")
     ps = [(f, v) for (f, v) in ps if v != ("<falls-off>",)]
+
+    # the test may be written chained (`a < C < b`, one fact) or as two comparisons joined by `and` (two facts on the true path, the
+    # negation of one of them on each false path)
+    def lits(C):
+        return (("cmp", "Lt", ("n", a_), C), ("cmp", "Lt", C, ("n", b_)))
+
+    def flat(f):
+        out = set()
+        for g in f:
+            if g[0] == "bool" and g[1] == "and":
+                out |= set(g[2])
+            out.add(g)
+        return out
+
+    def holds_inside(f, C):
+        return all(x in flat(f) for x in lits(C))
+
+    def fails_inside(f, C):
+        ff = flat(f)
+        return _negate(inside(C)) in ff or any(_negate(x) in ff for x in lits(C))
     cands = []
     for (f, v) in ps:
-        for g in f:
-            if g[0] == "bool" and g[1] in ("and", "or") and len(g[2]) == 2:
-                for C in {x for lit in g[2] if lit[0] == "cmp" for x in (lit[2], lit[3])} - {("n", a_), ("n", b_)}:
-                    if g in (inside(C), _negate(inside(C))) and C not in cands:
-                        cands.append(C)
+        for g in flat(f):
+            if g[0] == "cmp" and g[1] == "Lt" and g[2] == ("n", a_) and g[3] != ("n", b_) and holds_inside(f, g[3]) and g[3] not in cands:
+                cands.append(g[3])
     primary = [C for C in cands if any(x[0] == "call" and x[1] == ("n", gmw.params[3]) for x in subterms(C))]
     ctx.floor("C15.D6", len(cands), 1, "midpoint candidates tested for lying strictly inside (a, b)")
     n6 = 0
     for (f, v) in ps:
         n6 += 1
-        bad = [C for C in cands if C != v and inside(C) in f]
-        miss = [C for C in primary if C != v and _negate(inside(C)) not in f]
+        bad = [C for C in cands if C != v and holds_inside(f, C)]
+        miss = [C for C in primary if C != v and not fails_inside(f, C)]
         ctx.check(not bad and not miss, "C15.D6", R.key_of(gmw, "fallback-guarded#%d" % n6), gmw.loc(),
                   "`%s` is returned only on paths where every earlier candidate failed a < mid < b" % show(v)[:60],
                   "get_middle_weighted can return `%s` although the candidate `%s` %s" %
